@@ -579,24 +579,43 @@ def monHs (isServer : Bool) (lines : Array String) (cbSpec : String) (statusLine
   let mut finishing := false
   let mut panicked := false
   let mut implHeaders : List (Bytes × Bytes) := []
+  let mut headComplete := false     -- the bytes delivered so far contain a complete head
+  let mut lastPartial := false      -- ... are a proper prefix of a head (the parser says: need more)
+  let mut readAfterHead := false
+  let mut failedOnPartial : Option String := none
   for l in lines do
     match words l with
+    | "io" :: evs =>
+      if headComplete && !finishing && !hsDone && evs.any (fun t => t.startsWith "r:") then readAfterHead := true
     | "parsed" :: n :: rest =>
       if !hsDone then
         reads := reads + 1
         lastLen := n.toNat?.getD 0
+        lastPartial := rest.head? == some "partial"
         match parseHeadParse rest with
-        | .complete size h => lastComplete := some (size, h)
+        | .complete size h => lastComplete := some (size, h); headComplete := true
         | _ => pure ()
     | "reqheaders" :: r :: _ => implHeaders := parseKvList r
     | "wire" :: w :: _ =>
       if !hsDone then wire := wire ++ unhex w
       if finishing then hsDone := true
     | "res" :: "hs" :: "ok" :: _ => hsOk := true; finishing := true
-    | "res" :: "hs" :: "err" :: _ => finishing := true
+    | "res" :: "hs" :: "err" :: e =>
+      let e0 := e.head?.getD ""
+      if !finishing && lastPartial && !(e0.startsWith "Io." || e0 == "Protocol.HandshakeIncomplete" || e0 == "AttackAttempt") then
+        failedOnPartial := some e0
+      finishing := true
     | "res" :: "panic" :: _ => panicked := true
     | _ => pure ()
   if panicked then out := out ++ ["mon C07 FAIL panic-handshake"] else out := out ++ ["mon C07 ok"]
+  -- the outcome does not depend on the segmentation: a proper prefix of a head is not an error, and
+  -- once the head is complete the stage stops reading
+  let own := if isServer then "C15" else "C16"
+  match failedOnPartial with
+  | some e => out := out ++ [s!"mon C17 FAIL failed-on-incomplete-head {e}", s!"mon {own} FAIL failed-on-incomplete-head {e}"]
+  | none => pure ()
+  if readAfterHead then
+    out := out ++ ["mon C17 FAIL read-after-complete-head", s!"mon {own} FAIL read-after-complete-head"]
   -- C17: the guard bounds what a reading stage consumes
   if reads > 513 || lastLen > 65536 + 4096 then out := out ++ ["mon C17 FAIL guard-bound-exceeded"]
   else out := out ++ ["mon C17 ok"]
@@ -645,8 +664,31 @@ def monHs (isServer : Bool) (lines : Array String) (cbSpec : String) (statusLine
         | some l => l.startsWith "GET " && l.endsWith " HTTP/1.1"
         | none => false
       let hostLine := (hdrs.find? fun l => l.toLower.startsWith "host:").getD ""
+      let valueOf (name : String) : String :=
+        match hdrs.find? fun l => l.toLower.startsWith (name.toLower ++ ":") with
+        | some l => ((l.drop (name.length + 1)).toString.trimAscii).toString
+        | none => ""
+      -- what the caller supplied: the URL's authority and the extra headers
+      let authority : Option String := lines.toList.findSome? fun l =>
+        match words l with
+        | "uriview" :: r => (kv r "authority").map fun h => String.ofList ((unhex h).map fun b => Char.ofNat b.toNat)
+        | _ => none
+      let extraVals : List String := (lines.toList.findSome? fun l =>
+        match words l with
+        | "hcfg" :: r => (kv r "extra").map fun v => (parseKvList v).map fun p => String.ofList (p.2.map fun b => Char.ofNat b.toNat)
+        | _ => none).getD []
+      let hostWant := authority.map fun a => ((a.splitOn "@").getLast?.getD a)
+      let isCustom := lines.toList.any fun l =>
+        match words l with
+        | "hcfg" :: r => (kv r "custom").isSome
+        | _ => false
       if !startOk || !once then out := out ++ ["mon C16 FAIL malformed-request"]
       else if hostLine.contains '@' then out := out ++ ["mon C16 FAIL host-contains-credentials"]
+      else if isCustom then pure ()   -- a request object built by the caller is sent as it is
+      else if valueOf "Connection" != "Upgrade" || valueOf "Upgrade" != "websocket" || valueOf "Sec-WebSocket-Version" != "13" then
+        out := out ++ ["mon C16 FAIL mandatory-header-overridden"]
+      else if hostWant.isSome && hostWant != some (valueOf "Host") then out := out ++ ["mon C16 FAIL host-is-not-the-url-authority"]
+      else if extraVals.contains (valueOf "Sec-WebSocket-Key") then out := out ++ ["mon C16 FAIL key-is-caller-supplied-not-random"]
       else pure ()
     -- the client only starts reading the response after the whole request went out
     if (reads > 0 || hsOk) && !complete then out := out ++ ["mon C16 FAIL request-truncated"]
@@ -857,7 +899,12 @@ partial def runHsCase (lines : Array String) : Array String := Id.run do
           let cfg : Config := match cfgToks with
             | some ts => (parseCfg ts).2.1
             | none => {}
-          let ic : Mon.ImplCase := { role := .client, cfg := cfg, pre := some [], peer := allDelivered.drop headSize, ops := sockOps }
+          -- what arrived during the handshake after the head was handed over as already read;
+          -- what the socket's own reads fetched is its inbound stream
+          let after := allDelivered.drop headSize
+          let sockGot := Mon.deliveredBytes { ops := sockOps }
+          let ic : Mon.ImplCase := { role := .client, cfg := cfg, pre := some (after.take (after.length - sockGot)),
+                                     peer := after.drop (after.length - sockGot), ops := sockOps }
           match Mon.specVerdict ic with
           | some v => out := out.push s!"mon C16 FAIL tail-{v}"
           | none => pure ()
